@@ -5,7 +5,7 @@ CONSTANTS
   D = 2
   Vals = {0,1,2}
   Wts = {0,1,2}
-  Totals <- MCTotals4
+  Totals <- MCTotalsBig
   Export = FALSE
 INVARIANT QuantilesOrdered
 INVARIANT QuantilesWithinRange
